@@ -393,6 +393,16 @@ class Walker:
                       info=info)
 
     # ------------------------------------------------------------------
+    def resolve_module_func(self, st, call):
+        """An in-repo module-level function called by (dotted) name."""
+        d = dotted(call.func)
+        if not d:
+            return None
+        r = self.p.lookup(st.frame.func.module, d)
+        if r and r[0] == 'func' and r[1].cls is None:
+            return r[1], None, None
+        return None
+
     def default_resolve(self, st, call):
         f = call.func
         fr = st.frame
@@ -959,6 +969,16 @@ class Walker:
             sym = self.canon(s, test)
             key = sym.text
             evnode = getattr(test, '_orig', test)
+            if isinstance(sym.node, ast.BoolOp) or (
+                    isinstance(sym.node, ast.UnaryOp)
+                    and isinstance(sym.node.op, ast.Not)) or (
+                        isinstance(sym.node, ast.Compare)
+                        and len(sym.node.ops) == 1 and isinstance(
+                            sym.node.ops[0], (ast.NotIn, ast.IsNot))):
+                # the leaf stood for a boolean expression (e.g. the value
+                # returned by an inlined helper): decide it structurally
+                yield from self._branch_canon(sym.node, sym.stamp, s, evnode)
+                continue
             memo = s.memo.get(key)
             if memo is not None and memo[1] == sym.stamp:
                 truth = memo[0]
@@ -985,6 +1005,66 @@ class Walker:
                         yield truth, e2.state
                     else:
                         yield e2, None
+
+    def _branch_canon(self, node, stamp, st, evnode):
+        """Decide an already canonical boolean expression (no evaluation
+        events for its sub-calls: they were emitted when it was built)."""
+        if isinstance(node, ast.BoolOp):
+            is_and = isinstance(node.op, ast.And)
+
+            def rec(values, s):
+                head, rest = values[0], values[1:]
+                for truth, s2 in self._branch_canon(head, stamp, s, evnode):
+                    if isinstance(truth, Exit) or not rest \
+                            or truth != is_and:
+                        yield truth, s2
+                    else:
+                        yield from rec(rest, s2)
+            yield from rec(node.values, st)
+            return
+        if isinstance(node, ast.UnaryOp) and isinstance(node.op, ast.Not):
+            for truth, s2 in self._branch_canon(node.operand, stamp, st,
+                                                evnode):
+                yield (truth if isinstance(truth, Exit) else not truth), s2
+            return
+        if isinstance(node, ast.Compare) and len(node.ops) == 1 \
+                and isinstance(node.ops[0], (ast.NotIn, ast.IsNot,
+                                             ast.NotEq)):
+            pos = {ast.NotIn: ast.In, ast.IsNot: ast.Is,
+                   ast.NotEq: ast.Eq}[type(node.ops[0])]()
+            t2 = ast.Compare(node.left, [pos], node.comparators)
+            for truth, s2 in self._branch_canon(t2, stamp, st, evnode):
+                yield (truth if isinstance(truth, Exit) else not truth), s2
+            return
+        # restrict the stamp to the chains this leaf reads
+        reads = set()
+        for n in ast.walk(node):
+            if isinstance(n, ast.Attribute):
+                d = dotted(n)
+                if d:
+                    reads.add(d)
+        lstamp = frozenset((f, v) for f, v in stamp if f in reads
+                           or '@' in f)
+        sym = SymVal(node, lstamp)
+        key = sym.text
+        memo = st.memo.get(key)
+        if memo is not None and memo[1] == sym.stamp:
+            truth = memo[0]
+        else:
+            truth = self.d.decide(st, sym, node)
+        if truth is None:
+            self.forks += 1
+            s2 = st.copy()
+            for tv, ss in ((True, st), (False, s2)):
+                ss.memo[key] = (tv, sym.stamp)
+                for e2 in self.emit(ss, Event('cond', evnode, sym=sym,
+                                              extra=tv)):
+                    yield (tv, e2.state) if e2.kind == 'fall' else (e2, None)
+        else:
+            st.memo[key] = (truth, sym.stamp)
+            for e2 in self.emit(st, Event('cond', evnode, sym=sym,
+                                          extra=truth)):
+                yield (truth, e2.state) if e2.kind == 'fall' else (e2, None)
 
     def _boolop(self, values, is_and, st):
         head, rest = values[0], values[1:]
